@@ -35,16 +35,21 @@ def canon_json_table(j):
         u = col["unit"]
         units.append(u)
         vals = col["values"]
-        if not vals:
-            cols.append({"k": "raw", "v": []})
-        elif u == "text":
-            cols.append({"k": "text", "v": [str(x) for x in vals]})
-        elif u == "onoff":
-            cols.append({"k": "onoff", "v": [bool(x) for x in vals]})
-        elif u == "datetime":
-            cols.append({"k": "dt", "v": ["NaT" if x is None else pd.Timestamp(x).isoformat() for x in vals]})
-        else:
-            cols.append({"k": "num", "v": ["nan" if x is None else float_tok(float(x)) for x in vals]})
+        try:
+            if not vals:
+                cols.append({"k": "raw", "v": []})
+            elif u == "text":
+                cols.append({"k": "text", "v": [str(x) for x in vals]})
+            elif u == "onoff":
+                cols.append({"k": "onoff", "v": [bool(x) for x in vals]})
+            elif u == "datetime":
+                cols.append({"k": "dt", "v": ["NaT" if x is None else pd.Timestamp(x).isoformat() for x in vals]})
+            else:
+                cols.append({"k": "num", "v": ["nan" if x is None else float_tok(float(x)) for x in vals]})
+        except (TypeError, ValueError):
+            # the unit text does not tell the kind of these values (e.g. a unit that came back unstripped): keep the
+            # values as they are — the comparison that follows sees the difference, the harness does not crash
+            cols.append({"k": "values-do-not-fit-unit", "v": [repr(x) for x in vals]})
     return {"name": j["name"], "destinations": list(j["destinations"].keys()), "names": list(j["columns"].keys()),
             "units": units, "columns": cols}
 
